@@ -631,7 +631,7 @@ ANGLES_DEG = [0.0, -0.0, 90.0, -90.0, 180.0, -180.0, 270.0, 360.0, -360.0, 450.0
 
 
 def _gen_tm_spelling(rng):
-    nt = rng.choice([1, 1, 2, 3])
+    nt = rng.choice([1, 1, 2, 3, 6, 6])
     unit = rng.choice(["deg", "rad"])
     ints = rng.random() < 0.5
     if ints:
@@ -662,7 +662,7 @@ def _gen_tm_spelling(rng):
 
 
 def _gen_tm_boundary(rng):
-    nt = rng.choice([1, 2, 3, 7, 20])
+    nt = rng.choice([1, 2, 3, 6, 6, 7, 20])
     unit = rng.choice(["deg", "rad"])
     pp = rng.choice([-200, -60, -1, 0, 0, 10, 30, 60, 200])
     rp = rng.choice([-200, -60, -1, 0, 0, 10, 60, 200, None])
@@ -689,7 +689,7 @@ def _gen_tm_boundary(rng):
 
 
 def _gen_tm_history(rng, nt=None):
-    nt = rng.choice([1, 2, 4]) if nt is None else nt
+    nt = rng.choice([1, 2, 4, 6]) if nt is None else nt
     pos = [[rng.randint(-400, 400) / 8.0 for _ in range(nt)] for _ in range(3)]
     rot = [[rng.choice([rng.randint(-1400, 1400) / 8.0, 0.0, 90.0, 2.5]) for _ in range(nt)] for _ in range(3)]
     mcont = rng.choice(TM_CONT_MUTABLE + ["ndarray", "readonly", "list"])
